@@ -781,6 +781,59 @@ def variants(cfg, other, rng, n_perm, tier):
     return jobs
 
 
+def reuse_jobs(tier):
+    """Histories on ONE manager: [full configuration A; set_design; find_design (may raise)] then only a SUBSET of
+    the setters (loads / geometry / both) re-applied — simulation parameters, borehole, pipe, fluid, grout, soil
+    untouched — set_design; find_design.  Each is compared with a fresh manager in a fresh process holding the same
+    final slots.  A and B are chosen so that B needs a larger (or smaller) field than A's domain offers, with and
+    without max_boreholes, with and without continue_if_design_unmet, and with first runs that raise ValueError."""
+    phys = ghelib.default_physics()
+
+    def mk(geom, scale, **kw):
+        c = {"phys": dict(phys), "pipe": "SINGLEUTUBE", "load_kind": "atlanta", "load_scale": scale, "months": 12, "max_eft": 35.0, "min_eft": 5.0,
+             "max_h": 135.0, "min_h": 60.0, "geom": geom, "flow": 0.5, "flow_type": "BOREHOLE"}
+        c.update(kw)
+        return c
+
+    ns_small, ns_large = ("NEARSQUARE", 5.0, 10.0), ("NEARSQUARE", 5.0, 50.0)       # up to 3x3 / 11x11 boreholes
+    bi = ("BIRECTANGLE", 40.0, 30.0, 4.0, 10.0, 10.0)
+    pairs = [
+        ("grow-loads+geometry", mk(ns_small, 0.03), {"load_scale": 0.5, "geom": ns_large}),
+        ("grow-loads+geometry-continue", mk(ns_small, 0.03, cont=True), {"load_scale": 0.5, "geom": ns_large}),
+        ("grow-geometry-after-ValueError", mk(ns_small, 0.5), {"geom": ns_large}),
+        ("loads-after-ValueError-capped", mk(bi, 50.0, max_boreholes=30), {"load_scale": 1.0}),
+    ]
+    if tier == "thorough":
+        lot = [[0.0, 0.0], [30.0, 0.0], [30.0, 20.0], [0.0, 20.0]]
+        pairs += [
+            ("shrink-loads", mk(ns_large, 0.5), {"load_scale": 0.03}),
+            ("shrink-geometry-continue", mk(ns_large, 0.5, cont=True), {"geom": ns_small}),
+            ("shrink-geometry-ValueError-second", mk(ns_large, 0.5), {"geom": ns_small}),
+            ("grow-loads+geometry-capped", mk(ns_small, 0.03, max_boreholes=40), {"load_scale": 0.5, "geom": ns_large}),
+            ("grow-loads+geometry-cap-binds", mk(ns_small, 0.03, max_boreholes=20), {"load_scale": 0.5, "geom": ns_large}),
+            ("grow-loads-only", mk(ns_large, 0.03), {"load_scale": 0.5}),
+            ("loads-after-ValueError-capped-continue", mk(bi, 50.0, max_boreholes=30, cont=True), {"load_scale": 1.0}),
+            ("loads-after-ValueError-uncapped", mk(bi, 50.0), {"load_scale": 0.6}),
+            ("rectangle-grow-loads+geometry", mk(("RECTANGLE", 12.0, 10.0, 4.0, 8.0), 0.03), {"load_scale": 0.4, "geom": ("RECTANGLE", 60.0, 45.0, 4.0, 9.0)}),
+            ("constrained-grow-loads+geometry", mk(("BIRECTANGLECONSTRAINED", 5.0, 10.0, 12.0, lot, []), 0.03),
+             {"load_scale": 0.3, "geom": ("BIRECTANGLECONSTRAINED", 5.0, 10.0, 12.0, [[0.0, 0.0], [55.0, 0.0], [55.0, 40.0], [0.0, 40.0]], [])}),
+            ("bizoned-after-ValueError-grow-loads", mk(("BIZONEDRECTANGLE", 50.0, 40.0, 4.0, 9.0, 10.0), 0.001), {"load_scale": 0.4}),
+        ]
+    jobs = []
+    for name, a, over in pairs:
+        final = dict(a)
+        final.update(over)
+        subset = {"loads"} if "load_scale" in over or "load_kind" in over else set()
+        if "geom" in over:
+            subset.add("geom")
+        steps = [("new",)] + full_run(0, a) + [(n, 0, pay) for n, pay in setters_of(final) if n in subset]
+        steps += [("design", 0, (final["flow"], final["flow_type"]), final), ("find", 0, True)]
+        cname = "reuse:" + name
+        jobs.append({"name": "baseline", "config": cname, "steps": [("new",)] + full_run(0, final, target=True)})
+        jobs.append({"name": "reused-manager-" + "+".join(sorted(subset)), "config": cname, "steps": steps, "reuse": name})
+    return jobs
+
+
 def model_line(res):
     sims, _ = sims_table(res["trace"])
     return " ".join(["apirun"] + res["ops"] + ["--"] + [f"{k}={a}:{b}" for k, (a, b) in sims.items()] + ["--"] +
@@ -921,7 +974,7 @@ def run(ctx: core.Ctx):
     ctx.rule = ("GHE level: a case = one call sequence (setH / simulate HYBRID|HOURLY / size / compute_g_functions / assigning another g-function table; random of length <= 6, plus sequences that repeat a height and method around each state-changing operation) on one real GHE "
                 "(pipe kind, field size, 1 or 3 stored heights); distinct = distinct (pipe, boreholes, curves, operation sequence); every simulate/size is "
                 "non-trivial (compared with the same call on a GHE rebuilt from scratch).  Manager level: a case = one history variant of one configuration "
-                "(find twice, redesign, rebuilt manager, permuted/repeated setters, another design first on the same/another manager, nominal height); "
+                "(find twice, redesign, rebuilt manager, permuted/repeated setters, another design first on the same/another manager, nominal height, a manager re-used with only loads and/or geometry re-set after a first design that may raise); "
                 "non-trivial when the target find_design ran a search (>= 3 excess evaluations)")
     ctx.trusted_base += [
         "translator plug-in translate/gen_api.py (slot lists of set_design/find_design, writers of .H, keep_contour defaults, simulate's use of self.times)",
@@ -981,6 +1034,7 @@ def run(ctx: core.Ctx):
                 continue
             j["config"] = cname
             jobs.append(j)
+    jobs += reuse_jobs(ctx.tier)
     jobs.sort(key=lambda j: -sum(1 for st in j["steps"] if st[0] == "find"))
     # boundary: nominal height 0 (constructor raises at the height it finds)
     c0 = dict(cfgs["near-square"], nominal_height=0.0)
@@ -1003,6 +1057,8 @@ def run(ctx: core.Ctx):
                   "H": tf[-1]["result"]["H"] if tf and "result" in tf[-1] else None})
         ctx.count("variant:" + j["name"].rstrip("0123456789.-"))
         ctx.count("config:" + j["config"])
+        if j.get("reuse"):
+            ctx.count("reuse:" + j["reuse"] + ":first=" + r["finds"][0]["outcome"] + ",second=" + r["finds"][-1]["outcome"])
         if j.get("expect_raise"):
             # boundary of the Safe hypothesis: both sides must raise, nothing else is compared
             ok = all(f["outcome"] != "ok" for f in r["finds"]) and (mo is None or "find:0 raise" in mo[i])
